@@ -334,6 +334,11 @@ let () =
            chk "api_len" (not (has ["len"; "is_empty"; "scalars"]));
            chk "ro" (flag "ro" = "1");
            chk "oth" (flag "oth" = "1");
+           (* an operation taking &self leaves the cache it was called on bit-for-bit unchanged, whether it returns or unwinds *)
+           (match xop with
+            | Plain ((Peek _ | PeekEntry _ | Contains _ | PeekLru | PeekMru | IterOp _ | DebugFmt | Len | IsEmpty | CurrentSize | MaxSize | Capacity), _, _)
+            | XClone _ -> chk "ro_step" (flag "same" <> "0")
+            | _ -> ());
            if flag "api" <> "1" then Buffer.add_string detail (Printf.sprintf "  api: %s\n" (flag "api"));
            (* tokens: never dropped twice, never dropped after being handed back *)
            let dd = ref true in
